@@ -154,9 +154,14 @@ impl<'a> TokenStream<'a> {
     /// Expands the span
     #[inline(always)]
     pub fn expand_span(&self, mut span: Span) -> Span {
-        span.end_line = self.last_span.end_line;
-        span.end_col = self.last_span.end_col;
-        span.end_offset = self.last_span.end_offset;
+        // when nothing was consumed since `span` was taken the last token
+        // lies before it; the span then stays as it is rather than turning
+        // into one that ends before it starts.
+        if self.last_span.end_offset >= span.start_offset {
+            span.end_line = self.last_span.end_line;
+            span.end_col = self.last_span.end_col;
+            span.end_offset = self.last_span.end_offset;
+        }
         span
     }
 
